@@ -193,6 +193,33 @@ func scenC18(k *K) {
 			return c09Write(ctx, st, "parked")
 		}))
 		k.Wait()
+		if k.C.Chance(1, 2) {
+			// a second writer gets to the same point behind the first; one of the two is let
+			// go and acknowledged while the other still sits there when the action comes
+			momentName += "+writer"
+			second := k.Go(0, "parked-write-2", func() (interface{}, error) {
+				ctx, cancel := OpCtx(time.Minute)
+				defer cancel()
+				return c09Write(ctx, st, "parked2")
+			})
+			k.Wait()
+			if ps := k.Parks(); len(ps) == 2 {
+				which := k.C.Intn(2)
+				k.ReleasePark(ps[which])
+				k.Wait()
+				free := []*Op{inflight[0], second}[which]
+				for j := 0; j < 30 && !k.IsDone(free); j++ {
+					k.Step()
+				}
+				if k.IsDone(free) && free.Err == nil {
+					if o, ok := free.Val.(operation.Operation); ok && o != nil {
+						T.acked[o.GetEntry().GetHash().String()] = true
+						k.W.Stat("close-with-writer-acked-beside-parked-writer")
+					}
+				}
+			}
+			inflight = append(inflight, second)
+		}
 	case 2, 3:
 		if moment == 3 {
 			k.InstallHooks(func(pt string, owner interface{}) bool {
